@@ -39,6 +39,11 @@ ASSUMPTIONS = [
     "'hits a scheduled time' is judged with the manager's own rtol/atol",
 ]
 PROBES = [
+    "scripted_failure_pattern_streak",
+    "scripted_failure_pattern_streak_full",
+    "scripted_failure_pattern_alternate",
+    "scripted_failure_pattern_landing",
+    "scripted_failure_pattern_after_landing",
     "twin_manager_stepped_in_between",
     "rollback_mode",
     "rolled_back",
@@ -312,6 +317,8 @@ def run_tm_walk(ch, tr: Trace) -> None:
         # manager is now and then set back to an exported level (set_time_and_dt_from_exported_steps), followed by
         # ordinary converged / failed steps
         rollback = (not tm.is_constant) and ch.flag(1, 20)
+        # failure patterns: independent draws (most runs) or a scripted pattern that sits on the boundaries by construction
+        pattern = "iid" if tm.is_constant else ch.choice(["iid", "iid", "iid", "streak", "streak_full", "alternate", "landing", "after_landing"])
     tr.emit("config", {k: (list(v) if isinstance(v, (tuple, list, np.ndarray)) else v) for k, v in kw.items()},
             "p_fail", p_fail_num, "horizon", fault_horizon)
     orc = ClockOracle(tm, tr)
@@ -334,12 +341,15 @@ def run_tm_walk(ch, tr: Trace) -> None:
         exports.append((float(tm.time), float(tm.dt), tm._scheduled_idx, tm._is_about_to_hit_schedule, 1))
         tr.probe("rollback_mode")
     with stack:
-        _walk(ch, tr, tm, orc, p_fail_num, fault_horizon, aim, k_mode, rollback, exports, tfile)
+        _walk(ch, tr, tm, orc, p_fail_num, fault_horizon, aim, k_mode, rollback, exports, tfile, pattern)
 
 
-def _walk(ch, tr, tm, orc, p_fail_num, fault_horizon, aim, k_mode, rollback, exports, tfile):
+def _walk(ch, tr, tm, orc, p_fail_num, fault_horizon, aim, k_mode, rollback, exports, tfile, pattern="iid"):
     prev_failed = False
     first = True
+    just_landed = False
+    if pattern != "iid":
+        tr.probe("scripted_failure_pattern_" + pattern)
     # a second manager of another simulation lives in the same process and is stepped in between (now and then):
     # managers must not share state
     twin = None
@@ -383,12 +393,24 @@ def _walk(ch, tr, tm, orc, p_fail_num, fault_horizon, aim, k_mode, rollback, exp
         # --- environment decides the outcome ----------------------------------------------
         with ch.span("attempt"):
             fail = False
-            if p_fail_num and orc.n_attempts <= fault_horizon:
-                interesting = landing or first or final_step or prev_failed
-                if aim and interesting:
-                    fail = ch.flag(min(9, p_fail_num * 2), 10)
-                else:
-                    fail = ch.flag(p_fail_num, 10)
+            if pattern == "iid":
+                if p_fail_num and orc.n_attempts <= fault_horizon:
+                    interesting = landing or first or final_step or prev_failed
+                    if aim and interesting:
+                        fail = ch.flag(min(9, p_fail_num * 2), 10)
+                    else:
+                        fail = ch.flag(p_fail_num, 10)
+            elif orc.n_attempts <= max(fault_horizon, 40):
+                if pattern == "streak":  # recomp_max - 1 failures in a row (one short of the budget), then a success, again and again
+                    fail = orc.consec_fail < tm.recomp_max - 1
+                elif pattern == "streak_full":  # exactly recomp_max failures in a row: the last permitted one, then a success
+                    fail = orc.consec_fail < tm.recomp_max and not (orc.consec_fail == tm.recomp_max)
+                elif pattern == "alternate":
+                    fail = not prev_failed
+                elif pattern == "landing":  # every landing attempt (and the final step) fails exactly once
+                    fail = (landing or final_step) and not prev_failed
+                elif pattern == "after_landing":  # the first attempt after every accepted landing fails
+                    fail = just_landed and not prev_failed
             if not fail and not tm.is_constant:
                 lo, hi = tm.iter_optimal_range
                 if k_mode == 0:
@@ -447,6 +469,7 @@ def _walk(ch, tr, tm, orc, p_fail_num, fault_horizon, aim, k_mode, rollback, exp
             orc.accepted_step(t_att)
             tr.op("attempt", "landed" if landing else "conv", t_att, k)
             prev_failed = False
+            just_landed = bool(landing)
             if rollback and not tm.final_time_reached():
                 tm.write_time_information(tfile)
                 exports.append((float(tm.time), float(tm.dt), tm._scheduled_idx, tm._is_about_to_hit_schedule, len(orc.accepted)))
